@@ -71,4 +71,128 @@ theorem lookup_eq_none_iff (k : Val) (kvs : List (Val × Val)) : lookup k kvs = 
     · have hne : k' ≠ k := fun e => h ((Val.beq_iff_eq _ _).mpr e.symm)
       simp [h, ih, hne]
 
+theorem Val.height_pos (a : Val) : 1 ≤ a.height := by
+  cases a <;> simp [Val.height] <;> omega
+
+theorem mem_heightList {x : Val} {xs : List Val} (h : x ∈ xs) : x.height ≤ Val.heightList xs := by
+  induction xs with
+  | nil => simp at h
+  | cons y ys ih =>
+    simp only [Val.heightList]
+    rcases List.mem_cons.mp h with rfl | h
+    · omega
+    · have := ih h; omega
+
+theorem mem_heightPairs {k v : Val} {kvs : List (Val × Val)} (h : (k, v) ∈ kvs) : v.height ≤ Val.heightPairs kvs := by
+  induction kvs with
+  | nil => simp at h
+  | cons e es ih =>
+    obtain ⟨k', v'⟩ := e
+    simp only [Val.heightPairs]
+    rcases List.mem_cons.mp h with h | h
+    · cases h; omega
+    · have := ih h; omega
+
+theorem lookup_mem {k v : Val} {kvs : List (Val × Val)} (h : lookup k kvs = some v) : ∃ k', (k', v) ∈ kvs := by
+  induction kvs with
+  | nil => simp [lookup] at h
+  | cons e es ih =>
+    obtain ⟨k', v'⟩ := e
+    simp only [lookup] at h
+    split at h
+    · cases h; exact ⟨k', by simp⟩
+    · obtain ⟨k'', hk⟩ := ih h; exact ⟨k'', by simp [hk]⟩
+
+theorem allEqWith_total (f : Val → Val → Except Err Bool) (xs : List Val) :
+    ∀ ys : List Val, (∀ x ∈ xs, ∀ y, ∃ r, f x y = .ok r) → ∃ r, allEqWith f xs ys = .ok r := by
+  induction xs with
+  | nil => intro ys _; cases ys <;> exact ⟨true, by simp [allEqWith]⟩
+  | cons x xs ih =>
+    intro ys h
+    cases ys with
+    | nil => exact ⟨true, by simp [allEqWith]⟩
+    | cons y ys =>
+      obtain ⟨r, hr⟩ := h x (by simp) y
+      cases r with
+      | false => exact ⟨false, by simp [allEqWith, hr]⟩
+      | true =>
+        obtain ⟨r', hr'⟩ := ih ys (fun x' hx' y' => h x' (by simp [hx']) y')
+        exact ⟨r', by simp [allEqWith, hr, hr']⟩
+
+theorem dictEqWith_total (f : Val → Val → Except Err Bool) (ys : List (Val × Val)) (xs : List (Val × Val)) :
+    (∀ e ∈ xs, ∀ y, ∃ r, f e.2 y = .ok r) → ∃ r, dictEqWith f ys xs = .ok r := by
+  induction xs with
+  | nil => intro _; exact ⟨true, by simp [dictEqWith]⟩
+  | cons e xs ih =>
+    intro h
+    obtain ⟨k, xv⟩ := e
+    simp only [dictEqWith]
+    cases hl : lookup k ys with
+    | none => exact ⟨false, rfl⟩
+    | some yv =>
+      obtain ⟨r, hr⟩ := h (k, xv) (by simp) yv
+      simp only [] at hr
+      cases r with
+      | false => exact ⟨false, by simp [hr]⟩
+      | true =>
+        obtain ⟨r', hr'⟩ := ih (fun e' he' y' => h e' (by simp [he']) y')
+        exact ⟨r', by simp [hr, hr']⟩
+
+/-- a comparison whose left argument is no deeper than the limit does not fail -/
+theorem equalDepth_total (d : Nat) : ∀ (a b : Val), a.height ≤ d → ∃ r, equalDepth d a b = .ok r := by
+  induction d with
+  | zero => intro a _ h; have := a.height_pos; omega
+  | succ d ih =>
+    intro a b h
+    cases a with
+    | str s => cases b <;> simp [equalDepth]
+    | bytes s => cases b <;> simp [equalDepth]
+    | tuple xs =>
+      cases b <;> simp only [equalDepth, Except.ok.injEq, exists_eq']
+      rename_i ys
+      split
+      · exact ⟨_, rfl⟩
+      · exact allEqWith_total _ xs ys (fun x hx y => ih x y (by
+          have := mem_heightList hx; simp only [Val.height] at h; omega))
+    | list xs =>
+      cases b <;> simp only [equalDepth, Except.ok.injEq, exists_eq']
+      rename_i ys
+      split
+      · exact ⟨_, rfl⟩
+      · exact allEqWith_total _ xs ys (fun x hx y => ih x y (by
+          have := mem_heightList hx; simp only [Val.height] at h; omega))
+    | dict xs =>
+      cases b <;> simp only [equalDepth, Except.ok.injEq, exists_eq']
+      rename_i ys
+      split
+      · exact ⟨_, rfl⟩
+      · exact dictEqWith_total _ ys xs (fun e he y => ih e.2 y (by
+          have := mem_heightPairs (k := e.1) (v := e.2) (by simpa using he)
+          simp only [Val.height] at h; omega))
+
+/-- the elements of a sequence are less deep than the sequence, except that indexing a string or bytes gives
+a string or bytes again -/
+theorem elems_height {a : Val} {xs : List Val} (h : a.elems? = some xs) {x : Val} (hx : x ∈ xs) :
+    (a.indexReturnsSlice = true ∧ x.height = 1) ∨ (a.indexReturnsSlice = false ∧ x.height + 1 ≤ a.height) := by
+  cases a with
+  | str s =>
+    simp only [Val.elems?, Option.some.injEq] at h
+    subst h
+    obtain ⟨c, _, rfl⟩ := List.mem_map.mp hx
+    exact Or.inl ⟨rfl, rfl⟩
+  | bytes s =>
+    simp only [Val.elems?, Option.some.injEq] at h
+    subst h
+    obtain ⟨c, _, rfl⟩ := List.mem_map.mp hx
+    exact Or.inl ⟨rfl, rfl⟩
+  | tuple ys =>
+    simp only [Val.elems?, Option.some.injEq] at h
+    subst h
+    exact Or.inr ⟨rfl, by have := mem_heightList hx; simp only [Val.height]; omega⟩
+  | list ys =>
+    simp only [Val.elems?, Option.some.injEq] at h
+    subst h
+    exact Or.inr ⟨rfl, by have := mem_heightList hx; simp only [Val.height]; omega⟩
+  | dict kvs => simp [Val.elems?] at h
+
 end Dawn.Diff
